@@ -14,6 +14,9 @@
     x/rollapp/types/message_create_rollapp.go    GetRollapp (zero-supply hotfix) + Rollapp.ValidateBasic (genesis part)
     x/sequencer/keeper/msg_server_create.go      launch of the rollapp by its first sequencer
     x/iro/keeper/create_plan.go, settle.go       the parts that touch the rollapp (sealing, pre-launch time, settle pre-condition)
+    x/iro/keeper/trade.go                        EnableTrading (deferred-trading plans: `MsgCreatePlan.trading_enabled = false`)
+    x/iro/types/plan.go                          EnableTradingWithStartTime
+    x/rollapp/keeper/rollapp.go                  SetPreLaunchTime
 
   Strings are tokens (`Tok = Nat`): 0 is the empty string, 1..999 are valid and pairwise distinct,
   ≥ 1000 are invalid for the validator in question (bad bech32 prefix, bad denom, checksum longer
@@ -200,6 +203,9 @@ structure Ra where
   launched : Bool
   preLaunch : Option Nat          -- PreLaunchTime (seconds), none = nil
   plan : Option (Int × Bool)      -- IRO plan: (allocation, settled)
+  te : Bool                       -- IRO plan: TradingEnabled (false without a plan)
+  pstart : Option Nat             -- IRO plan: StartTime (seconds), none = the zero time (trading never enabled)
+  pdur : Nat                      -- IRO plan: IroPlanDuration (seconds)
   linked : Bool                   -- has a canonical client
   chan : Option Nat               -- canonical channel
   tph : Nat                       -- GenesisState.TransferProofHeight
@@ -248,7 +254,8 @@ inductive Op
   | create (r : Nat) (g : Option GInfo)
   | setgi (r : Nat) (owner : Bool) (g : Option GInfo)
   | force (r : Nat) (gov : Bool) (g : GInfo)
-  | plan (r : Nat) (owner : Bool) (alloc : Int) (dur : Nat)
+  | plan (r : Nat) (owner : Bool) (alloc : Int) (dur : Nat) (te : Bool)
+  | enable (r : Nat) (owner : Bool)
   | tick (dt : Nat)
   | seq (r : Nat)
   | link (r : Nat)
@@ -290,7 +297,7 @@ def handshake (ra : Ra) (ph : Nat) (p : Pkt) : Ra × Res :=
           | none => ({ ra with md := ra.md || d.gi.denom.isSet, bal := bal', tph := ph, nOpen := ra.nOpen + 1 }, .ok)
 
 def newRa (r : Nat) (g : GInfo) : Ra :=
-  { id := r, gi := g, launched := false, preLaunch := none, plan := none, linked := false,
+  { id := r, gi := g, launched := false, preLaunch := none, plan := none, te := false, pstart := none, pdur := 0, linked := false,
     chan := none, tph := 0, md := false, bal := [], nOpen := 0 }
 
 /-- `MsgCreateRollapp`: the message's ValidateBasic (hotfix, genesis info) runs before the keeper looks the rollapp up -/
@@ -331,8 +338,18 @@ def stepForce (s : St) (r : Nat) (gov : Bool) (g : GInfo) : St × Res :=
     else if g.vb.isSome || !g.launchable then (s, .err)
     else (setRa s { ra with gi := { g with sealed := true } }, .ok)
 
-/-- `MsgCreatePlan` (x/iro) as far as the rollapp is concerned: `SetIROPlanToRollapp` -/
-def stepPlan (s : St) (r : Nat) (owner : Bool) (alloc : Int) (dur : Nat) : St × Res :=
+/-- `time.Hour * 24 * 365 * 10` in seconds: where `SetIROPlanToRollapp` parks the pre-launch time of a
+    rollapp whose plan is created with trading disabled -/
+def tenYears : Nat := 315360000
+
+/-- `Plan.PreLaunchTime` as set by `Plan.EnableTradingWithStartTime start`: `start + IroPlanDuration` -/
+def planPreLaunch (start dur : Nat) : Nat := start + dur
+
+/-- `MsgCreatePlan` (x/iro) as far as the rollapp is concerned: `CreatePlan` (the message carries no start
+    time, so trading that is enabled at creation starts at the block time) → `SetIROPlanToRollapp`, which
+    seals the genesis info whatever the trading flag and sets the pre-launch time to the plan's when
+    trading is enabled and to block time + 10 years when it is not -/
+def stepPlan (s : St) (r : Nat) (owner : Bool) (alloc : Int) (dur : Nat) (te : Bool) : St × Res :=
   match getRa s r with
   | none => (s, .err)
   | some ra =>
@@ -345,7 +362,26 @@ def stepPlan (s : St) (r : Nat) (owner : Bool) (alloc : Int) (dur : Nat) : St ×
         if a.amt != alloc then (s, .err)
         else if ra.gi.denom.exp != 18 then (s, .err)
         else if ra.launched || ra.gi.sealed || !ra.gi.iroReady then (s, .err)
-        else (setRa s { ra with gi := { ra.gi with sealed := true }, preLaunch := some (s.now + dur), plan := some (alloc, false) }, .ok)
+        else (setRa s { ra with gi := { ra.gi with sealed := true },
+                                preLaunch := some (if te then planPreLaunch s.now dur else s.now + tenYears),
+                                plan := some (alloc, false), te := te,
+                                pstart := (if te then some s.now else none), pdur := dur }, .ok)
+
+/-- `MsgEnableTrading` (x/iro `Keeper.EnableTrading`, same order of checks): the plan exists, trading is not
+    enabled yet, the submitter owns the rollapp, the plan is not settled; then
+    `Plan.EnableTradingWithStartTime(block time)` and `SetPreLaunchTime(plan.PreLaunchTime)`.  Nothing
+    else of the rollapp (its genesis info and the seal in particular) is touched. -/
+def stepEnable (s : St) (r : Nat) (owner : Bool) : St × Res :=
+  match getRa s r with
+  | none => (s, .err)                          -- no rollapp, hence no plan
+  | some ra =>
+    match ra.plan with
+    | none => (s, .err)                        -- ErrPlanNotFound
+    | some (_, settled) =>
+      if ra.te then (s, .err)
+      else if !owner then (s, .err)
+      else if settled then (s, .err)
+      else (setRa s { ra with te := true, pstart := some s.now, preLaunch := some (planPreLaunch s.now ra.pdur) }, .ok)
 
 /-- first `MsgCreateSequencer` of a rollapp: pre-launch time, `SetRollappAsLaunched` -/
 def stepSeq (s : St) (r : Nat) : St × Res :=
@@ -403,7 +439,8 @@ def step (s : St) : Op → St × Res
   | .create r g => stepCreate s r g
   | .setgi r owner g => stepSetgi s r owner g
   | .force r gov g => stepForce s r gov g
-  | .plan r owner alloc dur => stepPlan s r owner alloc dur
+  | .plan r owner alloc dur te => stepPlan s r owner alloc dur te
+  | .enable r owner => stepEnable s r owner
   | .tick dt => ({ s with now := s.now + dt }, .ok)
   | .seq r => stepSeq s r
   | .link r => stepLink s r
